@@ -133,7 +133,7 @@ def get_finite_difference_matrix(
     if bc[0] == 'periodic':
         assert bc[1] == 'periodic'
         A_1d = 0 * sp.eye(size, format='csc')
-        for i in steps:
+        for i in range(len(steps)):
             A_1d += coeff[i] * sp.eye(size, k=steps[i])
             if steps[i] > 0:
                 A_1d += coeff[i] * sp.eye(size, k=-size + steps[i])
